@@ -743,8 +743,19 @@ where
                 {
                     // Yes, send the result to the waiting HTTP request processing task
                     trace!("Notifying waiting HTTP request processor of query {uuid} results");
-                    let tx = Arc::try_unwrap(tx).unwrap(); // TODO: handle this unwrap
-                    tx.send(processed_res).unwrap(); // TODO: handle this unwrap
+                    // The waiting request may be gone by now (the client
+                    // disconnected and its future was dropped): then
+                    // there is nobody left to answer and that is fine.
+                    match Arc::try_unwrap(tx) {
+                        Ok(tx) => {
+                            if tx.send(processed_res).is_err() {
+                                debug!("The requester of query {uuid} is gone, dropping the result");
+                            }
+                        }
+                        Err(_) => {
+                            error!("Internal error: the result sender of query {uuid} is still shared, dropping the result");
+                        }
+                    }
                 } else {
                     // No, pass it on to the next virtual RIB
                     trace!("Sending re-processed triggered query {uuid} results downstream");
